@@ -104,7 +104,7 @@ Definition run_0301 (input impl : sx) : sx :=
   end.
 
 (* ================= kind 0302: the real Receive fed by a scripted hostile sender =================
-   input = (setup-ops dest packets); impl = (class t0 destreal before after) with RAW lstat
+   input = (setup-ops dest packets merge); impl = (class t0 destreal before after) with RAW lstat
    snapshots of the whole jail (see harness/c03_recv.go).
    model         = recv_fs on the file system the setup ops build (Model/DiskWriterFs.v);
    specification = C03, evaluated on the two raw snapshots only (nothing of the model):
@@ -238,13 +238,13 @@ Definition outside_view_nometa (dest : bytes) (shared : list N) (l : list rawent
 
 Definition run_0302 (input impl : sx) : sx :=
   match input, impl with
-  | SL [SL ops; SB dest; SL pks], SL [SN cls; SN t0; SB destreal; bf; af] =>
+  | SL [SL ops; SB dest; SL pks; SN mg], SL [SN cls; SN t0; SB destreal; bf; af] =>
     match run_ops (ctx_init, fs_init) ops [], omap dec_packet pks, sx_list dec_rawent bf, sx_list dec_rawent af with
     | Some (f0, _), Some packets, Some before, Some after =>
       match resolve_ino ctx_init f0 dest true, resolve_ino ctx_init f0 dest false with
       | inl d0, inl dlno =>
         let dl := match get f0 dlno with Some {| i_kind := KLink _ |} => true | _ => false end in
-        let st := recv_fs f0 1 d0 dl [] packets in
+        let st := recv_fs f0 1 d0 dl (negb (N.eqb mg 0)) [] packets in
         let model := SL [SN (recv_class st); enc_snapshot (snapshot_from f0 1); enc_snapshot (snapshot_from (r_fs st) 1)] in
         let implv := SL [SN cls; conv_snapshot t0 before; conv_snapshot t0 after] in
         (* specification, on the raw snapshots *)
